@@ -99,6 +99,9 @@ def main():
         "engines": [{
             "name": "gmsim", "path": "/verif/sim", "serves_properties": sorted(claimed),
             "kind_free_text": "deterministic simulator: one PRNG (VERIF_SEED) decides sessions, inputs, interleaving, RNG candidates, faults and thread switches; world of byte slots (transport/storage) + stateful objects; reference-model peers; simulated caller threads (one runnable at a time, scheduling points at the RNG seam and at std::sync primitives through a std facade crate); simulated process environment (clock, pid) for fresh-process comparison; worker processes; replay files are explicit schedules; greedy schedule minimisation"
+        }, {
+            "name": "miri-stage", "path": "/verif/miri", "serves_properties": ["C03", "C04", "C05", "C06", "C08", "C14", "C15", "C17", "C19", "C20"],
+            "kind_free_text": "second stage of the thorough tier (run by ./check): two-caller scenarios of the crates, built without hooks, interpreted by Miri with a seeded scheduler (-Zmiri-seed, pre-emption rate 0.05) and its data-race detector; one (scenario, seed) is one repeatable execution; for state shared through plain memory, which has no switch point in gmsim"
         }],
         "checks": checks,
         "not_applicable": sorted(na, key=lambda x: x["property_id"]),
